@@ -1,5 +1,5 @@
 import MpsVerif.Proofs.Frame
-import MpsVerif.Proofs.MuxInv
+import MpsVerif.Proofs.MuxLive
 import MpsVerif.Proofs.Pipe
 /-!
 # C18 — socket and pipe transports deliver intact and to the right request
@@ -27,6 +27,16 @@ theorem C18_frame_roundtrip (lim : Nat) (rs : List Rec)
     decodeStream lim (rs.flatMap encodeRecord) = (rs, .eof) :=
   decodeFuel_encodeStream lim rs hw _ (by simp [encodeStream])
 
+/-- A stream that is cut anywhere inside a record (the peer died mid-write) yields exactly the
+    records before the cut and then an incomplete read — never a phantom or damaged record. -/
+theorem C18_frame_truncated (lim : Nat) (rs : List Rec) (r : Rec) (p q : Bytes)
+    (hw : ∀ x ∈ rs, wellFormedId x.rid ∧ (headerLine x).length ≤ lim)
+    (hr : wellFormedId r.rid ∧ (headerLine r).length ≤ lim)
+    (hcut : encodeRecord r = p ++ q) (hp : p ≠ []) (hq : q ≠ []) :
+    decodeStream lim (rs.flatMap encodeRecord ++ p) = (rs, .incomplete) := by
+  have hinc := readRecord_prefix lim r hr p q hcut hp hq
+  exact decodeFuel_tail lim rs hw p .incomplete (fun f => by simp [decodeFuel, hinc]) _ (by simp [encodeStream])
+
 /-- non-vacuity: a payload that looks like a header and contains newlines, an empty payload and a
     plain one, back to back, with ids `7`, `x/1`, `140230` -/
 example :
@@ -36,7 +46,8 @@ example :
     decodeStream 64 (encodeStream [r1, r2, r3]) = ([r1, r2, r3], .eof)
     ∧ (∀ r ∈ [r1, r2, r3], wellFormedId r.rid ∧ (headerLine r).length ≤ 64)
     ∧ encodeRecord r1 = [55, 32, 49, 49, 32, 110, 111, 110, 101, 10,
-                         55, 32, 51, 32, 110, 111, 110, 101, 10, 10, 97] := by
+                         55, 32, 51, 32, 110, 111, 110, 101, 10, 10, 97]
+    ∧ decodeStream 64 (encodeStream [r1, r2] ++ (encodeRecord r3).take 9) = ([r1, r2], .incomplete) := by
   decide
 
 end Frame
@@ -100,6 +111,64 @@ theorem C18_stream_order (c : Cfg) (s : State) (hr : Reachable c s) :
     rw [hi.sout_ok x v hp]
   calc s.sout = s.sout.map id := by simp
     _ = _ := (List.map_congr_left (fun p hp => (h2 p hp).symm))
+
+/-- Progress: as long as some request has no result, some transport action (a client sender or
+    receiver, the server's receiver or responder, or a handler completion) is enabled — no state in
+    which a request is stuck, whatever the completion order so far (needs one connection). -/
+theorem C18_mux_progress (c : Cfg) (s : State) (hr : Reachable c s) (hn : 0 < c.nconn) (k : Nat) (r : Req)
+    (hk : s.reqs[k]? = some r) (hu : ∀ v, (k, v) ∉ s.results) :
+    ∃ a, a.transport = true ∧ (step c s a).isSome = true :=
+  progress c s (all_reachable2 c hr) hn k r hk hu
+
+/-- Bounded work: from any state, an execution without new requests has at most `measure s` steps
+    (5 per pending request, 4/3/2/1 per request on the wire / running / done / answered, 1 per
+    pending stream output).  With progress: every request is answered after finitely many steps of
+    any schedule that keeps moving; no fairness assumption is needed. -/
+theorem C18_mux_terminates (c : Cfg) (s s' : State) (as : List Act) (hint : ∀ a ∈ as, a.internal = true)
+    (hrun : Core.run (step c) s as = some s') : as.length + measure s' ≤ measure s :=
+  internal_run_bounded c as s s' hint hrun
+
+/-- When the transport has come to rest, **every** request that was made holds the handler's
+    response to its own payload: nothing is lost, nothing is crossed. -/
+theorem C18_mux_all_answered (c : Cfg) (s : State) (hr : Reachable c s) (hn : 0 < c.nconn)
+    (hrest : ∀ a, a.transport = true → step c s a = none) :
+    ∀ k r, s.reqs[k]? = some r → (k, c.handler r.data) ∈ s.results := by
+  intro k r hk
+  apply Classical.byContradiction
+  intro hnot
+  have hu : ∀ v, (k, v) ∉ s.results := by
+    intro v hv
+    obtain ⟨r', hr', hv'⟩ := C18_mux_own_response c s hr k v hv
+    rw [hk] at hr'; cases hr'
+    subst hv'; exact hnot hv
+  obtain ⟨a, ha, hs⟩ := C18_mux_progress c s hr hn k r hk hu
+  rw [hrest a ha] at hs; simp at hs
+
+/-- When everything has come to rest (the stream consumer included), the stream has yielded every
+    input, in order, each with its own response. -/
+theorem C18_stream_complete (c : Cfg) (s : State) (hr : Reachable c s) (hn : 0 < c.nconn)
+    (hrest : ∀ a, a.internal = true → step c s a = none) :
+    s.sout = s.sin.map (fun x => (x, c.handler x)) := by
+  have hi := all_reachable c hr
+  have hall := C18_mux_all_answered c s hr hn (fun a ha => hrest a (by cases a <;> simp_all [Act.transport, Act.internal]))
+  have htasks : s.tasks = [] := by
+    cases ht : s.tasks with
+    | nil => rfl
+    | cons e rest =>
+      exfalso
+      obtain ⟨x, k⟩ := e
+      obtain ⟨r, hr', _⟩ := hi.task_ok x k (by rw [ht]; simp)
+      have hres := resultOf_of_mem (hall k r hr')
+      have := hrest .syield rfl
+      cases hv : resultOf s.results k with
+      | none => rw [hv] at hres; simp at hres
+      | some v => simp [step, ht, hv] at this
+  have hlen : s.sout.length = s.sin.length := by
+    have := congrArg List.length hi.sin_eq
+    simp [htasks] at this; exact this
+  have := C18_stream_order c s hr
+  rw [hlen, List.take_length] at this
+  exact this
 
 /-- non-vacuity: two connections, four requests (one through `stream`), the handlers complete out
     of order (request 2 before request 0, request 1 answered first), id `100` is reused after its
